@@ -98,6 +98,9 @@ func cliArgs(s Step, chartDir string) []string {
 		a = add(a, "cleanupOnFail", "--cleanup-on-fail")
 		a = add(a, "force", "--force")
 		a = append(a, "--history-max", strconv.Itoa(flagI(f, "maxHistory")))
+		if flagB(f, "dryRun") && flagB(f, "dryTrue") {
+			return append(a, "--dry-run=true") // the same boolean flag, spelled with a value
+		}
 		return add(a, "dryRun", "--dry-run")
 	case "test":
 		return []string{"test", RelName, "--namespace", RelNS}
@@ -105,6 +108,9 @@ func cliArgs(s Step, chartDir string) []string {
 		a := append([]string{"uninstall", RelName}, common...)
 		a = add(a, "keepHistory", "--keep-history")
 		a = add(a, "noHooks", "--no-hooks")
+		if flagB(f, "dryRun") && flagB(f, "dryTrue") {
+			return append(a, "--dry-run=true")
+		}
 		return add(a, "dryRun", "--dry-run")
 	}
 	return nil
